@@ -1214,6 +1214,13 @@ mut("rel-flush-only-in-debug", "break", ["C15"], "Local::flush schedules a colle
         if cfg!(debug_assertions) {
             self.schedule_collection();
         }""")], ["EBR-FLUSH-SCHEDULES"], config="release")
+mut("pin-other-arch-arm-no-fence", "break", ["C13", "C14"], "the non-x86 arm of pin publishes with a Relaxed store and no fence (dead code in this build)",
+    [ed(I, """                    self.epoch.store(new_epoch, Ordering::Relaxed);
+                    atomic::fence(Ordering::SeqCst);""", """                    self.epoch.store(new_epoch, Ordering::Relaxed);""")], ["EBR-PIN-VALIDATE"])
+mut("pin-other-arch-arm-wrong-value", "break", ["C13", "C14"], "the non-x86 arm of pin publishes the unpinned global epoch",
+    [ed(I, """                    self.epoch.store(new_epoch, Ordering::Relaxed);
+                    atomic::fence(Ordering::SeqCst);""", """                    self.epoch.store(global_epoch, Ordering::Relaxed);
+                    atomic::fence(Ordering::SeqCst);""")], ["EBR-PIN-VALIDATE"])
 mut("wrap-atomicepoch-cas-always-ok", "break", ["C13", "C14"], "AtomicEpoch::compare_exchange reports Ok on failure",
     [ed(EPF, "Err(data) => Err(Epoch { data }),", "Err(data) => Ok(Epoch { data }),")], ["WRAP-ATOMICS"])
 mut("wrap-defer-none-runs-now", "break", ["C01", "C02", "C13"], "Option<&Guard>::defer_with_inner runs f at once when no guard is given",
